@@ -10,6 +10,7 @@ import ZarrsModel.Driver.C16
 import ZarrsModel.Driver.C17
 import ZarrsModel.Driver.C18
 import ZarrsModel.Driver.C19
+import ZarrsModel.Driver.C20
 /-
 Line-protocol driver: reads `request -> implementation outcome` lines, replays each request through the
 model's executable definitions and prints one verdict line per disagreement:
@@ -41,6 +42,7 @@ def dispatch (st : DState) (l : Line) : Option (DState × List String × Option 
   | some "c16" => (DriverC16.handle st.c16 l).map (fun (s, a, n) => ({ st with c16 := s }, a, n))
   | some "c17" => (DriverC17.handle st.c01 l).map (fun (s, a, n) => ({ st with c01 := s }, a, n))
   | some "c18" => (DriverC18.handle l).map (fun (a, n) => (st, a, n))
+  | some "c20" => (DriverC20.handle st.c01 l).map (fun (s, a, n) => ({ st with c01 := s }, a, n))
   | some "c19" => (DriverC19.handle l).map (fun a => (st, a, none))
   | some "c11" => (DriverC11.handle l).map (fun m => (st, [m], none))
   | _ => none
